@@ -128,7 +128,7 @@ BODIES = {
     "stream-over-str": lambda: ("ab", None, False, b"abz"),
     "stream-over-closable": lambda: ((lambda c: (c, c, False, b"abcz"))(CloseIter([b"ab", b"c"]))),
 }
-QUICK_BODIES = [b for b in BODIES if b not in ("bytearray", "closable-str", "gen-memoryview", "assigned-gen")]
+QUICK_BODIES = list(BODIES)   # every body shape in both tiers (promoted into quick)
 
 # (value handed to Response, intended code)
 STATUSES = [
@@ -148,7 +148,7 @@ LOCATIONS = [None, "/rel", "http://h/abs", "/é x", "//other/p", "http://bücher
              "/docs#übersicht", "http://ü:ä@h/p;ö?k=v#第一章",
              # references without scheme / host: they inherit parts of the request URL when autocorrected
              "sibling", "./x", "../x", "?q=ä", "#frag", "/rooted", "", "../../ü/./y"]
-ENV_BODIES = ("str", "closable", "fw-dp")
+FULL_PRODUCT_QUICK_BODIES = ("closable",)
 N_FULL_LOCATIONS = 8   # LOCATIONS[1:8] take part in the full thorough product, the relative forms in the sub-products
 PREOPS = ["none", "get_data", "calc", "make_sequence", "freeze"]
 WRAPS = ["none", "call", "from_app", "from_app-buffered", "force_type-app", "force_type-response"]
@@ -191,8 +191,8 @@ def a_cases_for(bname, sti, tier):
     locs = [(None, False)] + [(i, a) for i in range(1, len(LOCATIONS)) for a in (False, True)]
     thorough = tier == "thorough"
     padded = isinstance(STATUSES[sti][0], str) and STATUSES[sti][0] != STATUSES[sti][0].strip()
-    if thorough and not padded:
-        # the full product, over the absolute / rooted / IRI Location forms (indices 1-7)
+    if (thorough or bname in FULL_PRODUCT_QUICK_BODIES) and not padded:
+        # the full product (thorough: every body; quick: the bodies named in FULL_PRODUCT_QUICK_BODIES), over the absolute / rooted / IRI Location forms (indices 1-7)
         full_locs = [x for x in locs if x[0] is None or x[0] < N_FULL_LOCATIONS]
         for method, preset, (loci, auto), ncb, preop, consume, wrap in itertools.product(
                 METHODS, (False, True), full_locs, (0, 1, 2), PREOPS, CONSUME, WRAPS):
@@ -205,13 +205,12 @@ def a_cases_for(bname, sti, tier):
     # Location x autocorrect x wrapping on the default request, every Location form
     for method, (loci, auto), wrap in itertools.product(METHODS, locs[1:], ("none", "from_app")):
         yield (bname, sti, method, False, loci, auto, 1, "none", "all", wrap, 0)
-    # Location x autocorrect x request environment (independent of the body: three representative bodies in quick,
-    # every body and both wrappings in thorough)
+    # Location x autocorrect x request environment: every body; thorough adds the from_app wrapping
     if thorough:
         for envi, method, (loci, auto), wrap in itertools.product(
                 range(1, len(ENVS)), METHODS, locs[1:], ("none", "from_app")):
             yield (bname, sti, method, False, loci, auto, 1, "none", "all", wrap, envi)
-    elif bname in ENV_BODIES:
+    else:
         for envi, method, (loci, auto) in itertools.product(range(1, len(ENVS)), METHODS, locs[1:]):
             yield (bname, sti, method, False, loci, auto, 1, "none", "all", "none", envi)
 
@@ -554,6 +553,12 @@ OPEN_OPS = {"add-option-underscore", "add-option-two", "add-option-quoted", "add
             "set-option-quoted", "add-option-value-is-bad", "set-option-value-is-bad"}
 
 
+# quick applies this reduced mutator set to the 10 000 stored lists of four items (thorough: every mutator)
+QUICK_4_MUTATORS = {"add", "set", "setitem-str-othercase", "setdefault", "setlist-2", "extend-dict-list",
+                    "update-kwargs-list", "ior", "setitem-int-last", "setitem-slice-neg", "setitem-slice-step",
+                    "set-option-kwarg", "add-option-key-lf", "pop-str", "delitem-slice-neg"}
+
+
 def remover_may_raise(state, opname, k):
     """-> exception name the removal may raise on this state, or None"""
     if opname in ("delitem-int", "delitem-int-neg", "pop-none", "pop-int", "pop-int-neg", "popitem"):
@@ -629,6 +634,8 @@ def run_b_unit(unit, R, tier):
         R.count("states")
         for opname, (fn, enabled) in MUTATORS.items():
             if enabled is not None and not enabled(h0):
+                continue
+            if len(state) > 3 and tier != "thorough" and opname not in QUICK_4_MUTATORS:
                 continue
             for k in KEYS:
                 # the 43 newline-adjacency values are judged on every state of <= 3 items (validation does not
@@ -837,9 +844,9 @@ def units(tier):
     bodies = list(BODIES) if thorough else QUICK_BODIES
     nst = len(STATUSES) if thorough else N_QUICK_STATUS
     us = [("A", b, s) for b in bodies for s in range(nst)]
-    bound = 4 if thorough else 3
+    bound = 4
     total = sum(len(ITEMS) ** n for n in range(bound + 1))
-    step = 12 if not thorough else 40
+    step = 40
     b_units = [("B", lo, min(lo + step, total), bound) for lo in range(0, total, step)]
     # interleave so that the workers stay balanced
     out = []
@@ -890,8 +897,9 @@ def finalize(R, tier):
     refusing_doors = {t.split(":", 1)[1] for t in R.used if isinstance(t, str) and t.startswith("door-raised:")}
     if len(refusing_doors) < 15:
         raise core.Broken(f"only {len(refusing_doors)} front doors ever refused a value")
-    bound = 4 if thorough else 3
-    return {"bound": f"A: full product; B: <= {bound} stored header items x {len(MUTATORS)} mutator forms",
+    bound = 4
+    return {"bound": f"A: full product; B: <= {bound} stored header items x {len(MUTATORS)} mutator forms"
+                     + ("" if thorough else f" (4-item lists: {len(QUICK_4_MUTATORS)} forms)"),
             "exhaustive": True, "closed": True,
             "header_states": int(R.counts["states"]), "header_transitions": int(R.counts["transitions"]),
             "explanation": "A is a complete product; B applies every mutator instance to every list of <= N clean "
